@@ -117,6 +117,9 @@ func readLine(reader *bufio.Reader) ([]byte, error) {
 	if !isPrefix {
 		return line, err
 	}
+	// the slice returned by ReadLine is only valid until the next read: keep a copy of the
+	// first chunk before reading the rest of an over-long line
+	line = append([]byte(nil), line...)
 	for {
 		b, isPrefix, err := reader.ReadLine()
 		if err != nil {
